@@ -34,7 +34,9 @@ def main():
         if rc != 0:
             res["error"] = out[-2000:]
             return res
-        rc, newpatch = sh("git diff", wt)
+        rc, newpatch = sh("git add -A -N . && git diff -- . ':!go.mod' ':!go.sum'", wt)   # -N: files the change adds are part of the patch
+        sh("git reset -q", wt)
+        added = re.findall(r"(?m)^diff --git a/(\S+) b/\S+\nnew file", newpatch)
         rc, out = sh("go build ./... && go build -tags verif ./...", wt)
         res["builds"] = rc == 0
         if rc != 0:
@@ -55,6 +57,8 @@ def main():
         res["demo_with_patch_exit"] = rc1
         res["demo_with_patch_tail"] = out1[-1200:]
         sh("git checkout -- . ", wt)   # removes the patch, keeps the (untracked) demo file
+        for f in added:
+            os.remove(os.path.join(wt, f))
         rc2, out2 = sh(cmd + " 2>&1", wt, timeout=900)
         res["demo_without_patch_exit"] = rc2
         res["demo_without_patch_tail"] = out2[-600:]
